@@ -3,9 +3,9 @@
     Level: PARTIAL.  The theorems are about Model/PyScope.v: a model of CPython 3.12 name
     resolution for a mini-Python fragment (validated against the real interpreter by the
     correspondence run, not derived from it), parameterised by pypyr's own contribution — how
-    the two namespaces are built ([eval_state]/[eval_env]: ChainMap-pretend-dict over
-    [context; imports] with builtins in the dict part; [exec_globals]: shallow copy of the
-    context plus __builtins__ and save).  Quantification is over ALL programs of the fragment,
+    the two namespaces are built ([run_eval]/[fresh_namespace]: per evaluation a ChainMap-pretend-dict
+    over [throw-away scratch; context; imports] with builtins in its own dict part;
+    [exec_globals]: shallow copy of the context plus __builtins__ and save).  Quantification is over ALL programs of the fragment,
     all contexts, heaps, module tables and builtins tables; no size bound. *)
 From PV Require Import PyScope PyScopeProofs.
 Open Scope string_scope.
@@ -15,17 +15,19 @@ Open Scope string_scope.
 (** A context key is visible as a plain variable wherever the reference stands: [frames s] is an
     arbitrary stack of enclosing lambda / comprehension / function scopes (none of which binds
     [x]), [infn]/[gex] decide between LOAD_NAME and LOAD_GLOBAL — the value is the context's in
-    every case.  No hypothesis on builtins or imports: the context shadows both. *)
+    every case.  No hypothesis on builtins or imports: the context shadows both.  [scr s] is the
+    expression's own scratch scope (empty when the evaluation starts; only a [:=] of the same
+    expression can put [x] there). *)
 Theorem C14_reads_context_key : forall E x v s,
   gk E = GChain -> cls E = false -> find_local x (frames s) false = LNotLocal ->
-  ns_get x (ctx s) = Some v -> load_var E x s = (Ok v, s).
+  ns_get x (scr s) = None -> ns_get x (ctx s) = Some v -> load_var E x s = (Ok v, s).
 Proof. exact load_ctx_key. Qed.
 Print Assumptions C14_reads_context_key.
 
 (** the same, syntactically: under any number of enclosing lambdas *)
 Theorem C14_reads_under_lambdas : forall k v xs n E s,
   gk E = GChain -> cls E = false -> ~ In k xs ->
-  find_local k (frames s) false = LNotLocal -> ns_get k (ctx s) = Some v ->
+  find_local k (frames s) false = LNotLocal -> ns_get k (scr s) = None -> ns_get k (ctx s) = Some v ->
   eval (length xs + S n) E (nest_lam xs (XName k)) s = (Ok v, s).
 Proof. exact read_under_lambdas. Qed.
 Print Assumptions C14_reads_under_lambdas.
@@ -33,15 +35,16 @@ Print Assumptions C14_reads_under_lambdas.
 (** names imported through pyimport are visible when the context does not define them *)
 Theorem C14_reads_imports_after_context : forall E x v s,
   gk E = GChain -> cls E = false -> find_local x (frames s) false = LNotLocal ->
-  ns_get x (ctx s) = None -> ns_get x (imps s) = Some v -> load_var E x s = (Ok v, s).
+  ns_get x (scr s) = None -> ns_get x (ctx s) = None -> ns_get x (imps s) = Some v ->
+  load_var E x s = (Ok v, s).
 Proof. exact load_import. Qed.
 Print Assumptions C14_reads_imports_after_context.
 
 (** builtins come last *)
 Theorem C14_reads_builtins_last : forall E x v s,
   gk E = GChain -> cls E = false -> find_local x (frames s) false = LNotLocal ->
-  ns_get x (ctx s) = None -> ns_get x (imps s) = None -> ns_get x (nsd s) = None ->
-  ns_get x (bi E) = Some v -> load_var E x s = (Ok v, s).
+  ns_get x (scr s) = None -> ns_get x (ctx s) = None -> ns_get x (imps s) = None ->
+  ns_get x (nsd s) = None -> ns_get x (bi E) = Some v -> load_var E x s = (Ok v, s).
 Proof. exact load_builtin. Qed.
 Print Assumptions C14_reads_builtins_last.
 
@@ -100,44 +103,34 @@ Theorem C14_inplace_visible_exec : forall mt b c h k r items z,
 Proof. exact exec_append_visible. Qed.
 Print Assumptions C14_inplace_visible_exec.
 
-Theorem C14_inplace_visible_eval : forall mt b c i d h k r items z,
+Theorem C14_inplace_visible_eval : forall mt b c i h k r items z,
   ns_get k c = Some (PRef r) -> nth_error h r = Some (OList items) -> k <> "__builtins__" ->
-  let res := run_eval mt b (XAppend (XName k) (XInt z)) (eval_state c i d h) in
+  let res := run_eval mt b (XAppend (XName k) (XInt z)) (eval_state c i h) in
   fst res = Ok PNone /\ ctx (snd res) = c
   /\ nth_error (heap (snd res)) r = Some (OList (items ++ [PInt z])).
 Proof. exact eval_append_visible. Qed.
 Print Assumptions C14_inplace_visible_eval.
 
-(** * eval cannot leak — FALSE of the faithful model.
+(** * eval cannot leak (after the repair e6daded of Context.get_eval_string)
 
-    Full statement (kept visible, not provable):
-      forall mt b e s, ctx (snd (run_eval mt b e s)) = ctx s.
-    Witness: the !py expression [(y := a + 2)] over context {a: 1}.  A module-level assignment
-    expression compiles to STORE_NAME, which goes to the locals mapping = the namespace object
-    = ChainMap.__setitem__ = maps[0] = the context itself. *)
-Theorem C14_eval_no_leak_refuted : exists mt b e s, ctx (snd (run_eval mt b e s)) <> ctx s.
-Proof.
-  exists std_mods, std_builtins, leak_expr, (eval_state leak_ctx [] [] []).
-  rewrite eval_leak_witness. discriminate.
-Qed.
-Print Assumptions C14_eval_no_leak_refuted.
-
-(** What does hold: if every [:=] that is not inside a lambda body targets a name the compiler
-    made global-explicit (i.e. it sits inside a comprehension: STORE_GLOBAL goes to the raw dict
-    part of the namespace object, not to the context), evaluation leaves context, save log and
-    imports untouched.  Covers walrus-free expressions, [:=] inside lambdas and [:=] inside
-    comprehensions; excludes exactly the module-level [:=]. *)
-Theorem C14_eval_no_leak_partial : forall mt b e s,
-  safe (gexs e) e = true ->
+    For EVERY expression of the fragment — assignment expressions at module level, in lambdas, in
+    comprehensions included — evaluating it leaves the context and the imports namespace (and the
+    save log) exactly as they were.  A module-level [:=] is STORE_NAME = ChainMap.__setitem__ =
+    maps[0], which is now the per-evaluation scratch dict; a [:=] inside a module-level
+    comprehension is STORE_GLOBAL into the dict part of the per-evaluation namespace object. *)
+Theorem C14_eval_no_leak : forall mt b e s,
   let s' := snd (run_eval mt b e s) in
-  ctx s' = ctx s /\ saves s' = saves s /\ imps s' = imps s.
-Proof. intros mt b e s H. exact (run_eval_safe mt b e s H). Qed.
-Print Assumptions C14_eval_no_leak_partial.
+  ctx s' = ctx s /\ imps s' = imps s /\ saves s' = saves s.
+Proof. intros mt b e s. destruct (run_eval_frame mt b e s) as (A & B & C). cbv zeta. auto. Qed.
+Print Assumptions C14_eval_no_leak.
 
-Theorem C14_eval_no_leak_walrus_free : forall mt b e s,
-  walrus_free e = true -> ctx (snd (run_eval mt b e s)) = ctx s.
-Proof. intros mt b e s H. apply run_eval_safe. apply walrus_free_safe. exact H. Qed.
-Print Assumptions C14_eval_no_leak_walrus_free.
+(** and neither the scratch map nor the dict part outlives the call: the next !py string starts
+    from context + imports + builtins only *)
+Theorem C14_eval_namespace_dropped : forall mt b e s,
+  wf_expr [] false false e = true ->
+  scr (snd (run_eval mt b e s)) = [] /\ nsd (snd (run_eval mt b e s)) = [].
+Proof. exact run_eval_namespace_dropped. Qed.
+Print Assumptions C14_eval_namespace_dropped.
 
 (** * Non-vacuity: concrete programs, evaluated *)
 Definition c1 : ns := [("a", PInt 1); ("lst", PRef 0); ("len", PInt 9)].
@@ -165,7 +158,7 @@ Proof. vm_compute. reflexivity. Qed.
 
 Example C14_reads_under_lambdas_nonvacuous :
   eval 4 (eval_env std_mods std_builtins XNone) (nest_lam ["x"; "y"; "z"] (XName "a"))
-       (eval_state c1 [] [] h1) = (Ok (PInt 1), eval_state c1 [] [] h1).
+       (eval_state c1 [] h1) = (Ok (PInt 1), eval_state c1 [] h1).
 Proof. vm_compute. reflexivity. Qed.
 
 (** exec: locals, import, def, class, loop variable, deletion stay out; save's arguments go in;
@@ -194,21 +187,25 @@ Example C14_exec_no_leak_nonvacuous :
          [("a", CInt 1); ("lst", CList 0 [CInt 1; CInt 2]); ("x", CInt 1); ("r", CInt 2)] [] []).
 Proof. split; vm_compute; reflexivity. Qed.
 
-(** the partial theorem applies to [:=] inside a lambda and inside a comprehension; the latter
-    does not reach the context but does pollute the namespace object's dict part, where a later
-    module-level read (LOAD_NAME) finds it and a read from a lambda (LOAD_GLOBAL) does not *)
-Definition e_lam : expr := XLam ["x"] (XWalrus "y" (N "x")) [XInt 5].
+(** the former leak witnesses: [(y := a + 2)] and a rebinding [(lst := lst + [9])] give their
+    values and leave the context alone; [y] is gone for the next !py string, from every kind of
+    scope; within one expression a module-level [:=] is readable afterwards, also from a lambda *)
+Definition leak_expr : expr := XWalrus "y" (XBin BAdd (N "a") (XInt 2)).
 Definition e_comp : expr := XComp (XWalrus "y" (N "x")) [("x", N "lst")].
-Example C14_eval_partial_nonvacuous :
-  safe (gexs e_lam) e_lam = true /\ safe (gexs e_comp) e_comp = true
-  /\ safe (gexs leak_expr) leak_expr = false
-  /\ eval_case std_mods std_builtins 1 h1 [("a", PInt 1); ("lst", PRef 0)] []
-       [e_lam; e_comp; N "y"; XLam [] (N "y") []]
-     = Some (mk_obs
-         [Ok (CInt 5); Ok (CList 1000 [CInt 1; CInt 2]); Ok (CInt 2);
-          Err "NameError" "name 'y' is not defined"]
-         [("a", CInt 1); ("lst", CList 0 [CInt 1; CInt 2])] [] [("y", CInt 2)]).
-Proof. repeat split; vm_compute; reflexivity. Qed.
+Example C14_eval_no_leak_nonvacuous :
+  eval_case std_mods std_builtins 1 h1 [("a", PInt 1); ("lst", PRef 0)] []
+    [ leak_expr; N "y";
+      XWalrus "lst" (XBin BAdd (N "lst") (XList [XInt 9]));
+      XBin BAdd (XWalrus "t" (XInt 5)) (XLam [] (N "t") []);
+      e_comp; N "y"; XLam [] (N "y") [] ]
+  = Some (mk_obs
+      [ Ok (CInt 3); Err "NameError" "name 'y' is not defined";
+        Ok (CList 1000 [CInt 1; CInt 2; CInt 9]);
+        Ok (CInt 10);
+        Ok (CList 1001 [CInt 1; CInt 2]);
+        Err "NameError" "name 'y' is not defined"; Err "NameError" "name 'y' is not defined" ]
+      [("a", CInt 1); ("lst", CList 0 [CInt 1; CInt 2])] [] []).
+Proof. vm_compute. reflexivity. Qed.
 
 Example C14_inplace_nonvacuous :
   ns_get "lst" c1 = Some (PRef 0) /\ nth_error h1 0 = Some (OList [PInt 1; PInt 2]).
